@@ -4,7 +4,7 @@ from framework import Obligation, Claim, Cover, model_value
 from values import *
 from interp import run_to_end
 from props.common import *
-from props.actor_steps import StepPull, StepExpire
+from props.actor_steps import StepPull, StepExpire, SubscriptionActorExpiryHistory
 
 OUTSIDE = ['tokio timer accuracy (<= 1 ms) and the actor loop re-arming poll_next_expired (A3)']
 ASSUMPTIONS = ['EPOCH (lazy static) is not later than any instant passed to AckDeadline::new']
@@ -157,7 +157,8 @@ def obligations(ctx, cfg):
     return _old_obligations(ctx, cfg) + [C04c(), ActorLoop(ctx, 2, 1, 1, False, 'deadline', 'C04.f-actor-loop'),
                                          # a Pull handled by the loop while the expiry timer was already armed for an older,
                                          # possibly later deadline: afterwards the timer is armed for the earliest deadline again
-                                         ActorLoop(ctx, 1, 1, 1, True, 'deadline', 'C04.f-actor-loop-pull', request='pull')]
+                                         ActorLoop(ctx, 1, 1, 1, True, 'deadline', 'C04.f-actor-loop-pull', request='pull'),
+                                         SubscriptionActorExpiryHistory(ctx, 'C04.g-history-expiry')]
 
 
 def kani_harnesses(cfg):
